@@ -301,18 +301,24 @@ def run(chk: Check):
     for src, nxt in rinfo["next"]:
         chk.formula("K-SPLIT", "dynamic:remaining-advance", loop, nxt, spec_expr("REM - STEP", env), domain=dom)
     fh = R.self_attr(chk.prog.cls(REL, "DynamicDisk").key, "fh")
-    for s in calls_named(ctx, "seek"):
+    # (with the evaluation above holding, the per-variable rules speak about the loop; a fast path in front of it - covered by the
+    # evaluation - has no loop variables to compare with)
+    in_loop = {id(x) for x in ast.walk(loop)}
+    scope = (lambda n: id(n) in in_loop) if sim is True else (lambda n: True)
+    for s in [x for x in calls_named(ctx, "seek") if scope(x)]:
         chk.formula("K-FORMULA", "dynamic:data-address", s, R.expr(ctx, s.args[0]),
                     spec_expr("(BAT(POS // spb) + ceildiv(spb // 8, 512) + POS % spb) * 512", env), domain=dom)
     n_file = n_zero = 0
     alloc_tab = {}
-    for call, t in appends_in(chk, ctx):
+    for call, t in [(c_, t_) for c_, t_ in appends_in(chk, ctx) if scope(getattr(c_, "_hv_origin", c_))]:
         z = zeros_len(t)
         conds = conds_sym(chk, ctx, call)
         entry = S.call(batkey, [("self", bat_cls.key), spec_expr("POS // spb", env)])
         reach = {}
+        # (only the tests on the table entry: conditions a fast path in front of the loop leaves behind say nothing about it)
+        on_entry = [(c, p) for c, p in conds if S.contains(c, lambda x: x == entry)]
         for v in (None, 0, 1, 2, 0x1000):
-            reach[v] = eval_conds(conds, _ValSub(entry, v))
+            reach[v] = eval_conds(on_entry, _ValSub(entry, v))
         if z is not None:
             n_zero += 1
             chk.formula("K-SPLIT", "dynamic:zeros-length", call, z, spec_expr("STEP * 512", env), domain=dom)
